@@ -5,6 +5,7 @@ import FxpVerif.Model.Compare
 import FxpVerif.Model.Dtype
 import FxpVerif.Model.Strings
 import FxpVerif.Model.Bits
+import FxpVerif.Model.Infer
 /-! Line-protocol helpers for the correspondence driver (core Lean only). -/
 namespace Fxp.Proto
 
@@ -34,6 +35,9 @@ def pBool (s : String) : P Bool :=
   | "1" => pure true
   | "0" => pure false
   | _ => throw s!"bad bool '{s}'"
+
+def pOptInt (s : String) : P (Option Int) :=
+  if s == "-" then pure none else do let k ← pInt s; pure (some k)
 
 def pSigned (s : String) : P Bool :=
   match s with
